@@ -608,6 +608,7 @@ fn stress(c: &Value) -> Value {
         for (k, (un, tc, lim)) in option_sets.iter().enumerate() {
             if k > 0 && rng.below(3) != 0 { continue; }
             runs += 1;
+            set_current(&json!({"variant": v, "unescape": un, "trailing_commas": tc, "limit": lim}).to_string());
             match exercise(d.as_ref(), v, *un, *tc, *lim) {
                 Ok(steps) => { let r = steps as f64 / len; if r > max_ratio { max_ratio = r; worst = v.clone(); } }
                 Err(msg) => return json!({"status":"panic","variant":v,"unescape":un,"trailing_commas":tc,"limit":lim,"panic":msg}),
